@@ -132,6 +132,18 @@ ReadRef(t, segs) ==
       [] w.r = "node" -> IF t[w.p].k = "f" THEN R("ok", t, t[w.p].c)
                          ELSE IF t[w.p].k = "d" THEN R("EISDIR", t, NoVal) ELSE R("EBLOCK", t, NoVal)
 
+\* OpenOptions in full: f = <<read, write, append, truncate, create, create_new>>.  The option
+\* rules are std's (an access mode is required; truncate/create/create_new need write or append;
+\* append+truncate needs create_new; create_new wins over create/truncate).  A writable file gets
+\* write_all(c), a read-only one is read to its end (the value).
+OOpenRef(t, segs, c, f) ==
+    LET rd == f[1]  wr == f[2]  ap == f[3]  tr == f[4]  cr == f[5]  cn == f[6]
+        accessOk   == rd \/ wr \/ ap
+        creationOk == IF ap THEN ~(tr /\ ~cn) ELSE IF wr THEN TRUE ELSE ~(tr \/ cr \/ cn)
+    IN IF ~accessOk \/ ~creationOk THEN R("EINVAL", t, NoVal)
+       ELSE IF wr \/ ap THEN OWriteRef(t, segs, c, cr \/ cn, tr /\ ~cn, ap, cn)
+       ELSE ReadRef(t, segs)
+
 \* copy(src, dst): the destination holds the source's content whatever it held before
 CopyRef(t, s, d) ==
     LET ws == Resolve(t, s, TRUE) IN
@@ -243,6 +255,7 @@ Ref(t, o) ==
       [] o.op = "owrite_x"       -> OWriteRef(t, o.p, o.c, TRUE, FALSE, FALSE, TRUE)    \* write+create_new
       [] o.op = "owrite_t"       -> OWriteRef(t, o.p, o.c, FALSE, TRUE, FALSE, FALSE)   \* write+truncate
       [] o.op = "owrite_p"       -> OWriteRef(t, o.p, o.c, FALSE, FALSE, FALSE, FALSE)  \* write only
+      [] o.op = "oopen"          -> OOpenRef(t, o.p, o.c, o.f)
       [] o.op = "read"           -> ReadRef(t, o.p)
       [] o.op = "copy"           -> CopyRef(t, o.p, o.q)
       [] o.op = "create_dir"     -> Mkdir(t, o.p)
@@ -267,6 +280,7 @@ ListingOk(v, L) ==          \* v: sequence of <<name, kind>>; every child exactl
 
 ValueOk(o, ref, v) ==
     CASE o.op = "read"     -> v = ref.v
+      [] o.op = "oopen"    -> v = ref.v
       [] o.op = "exists"   -> v = ref.v
       [] o.op = "metadata" -> v.dir = ref.v.dir /\ v.file = ref.v.file /\ (ref.v.file => v.len = ref.v.len)
       [] o.op = "read_dir" -> ListingOk(v, ref.v)
